@@ -12,6 +12,10 @@ Init == s \in Strings
 Next == UNCHANGED s
 Spec == Init /\ [][Next]_s
 
+\* s cut after its first k bytes (k clipped to 0 .. Len(s))
+Cut(k) == IF k < 0 THEN 0 ELSE IF k > Len(s) THEN Len(s) ELSE k
+Pre(k) == [i \in 1 .. Cut(k) |-> s[i]]
+Suf(k) == [i \in 1 .. (Len(s) - Cut(k)) |-> s[Cut(k) + i]]
 Lbl == IF s = <<>> THEN <<>> ELSE <<s>>          \* the string as one label (names cannot hold empty labels)
 Long == IF Len(s) = 63 THEN Rep(255, s[1]) ELSE s
 RR(nm, t, f) == [name |-> nm, type |-> t, class |-> 1, cf |-> FALSE, ttl |-> <<0, 0, 0, 5>>, rd |-> f]
@@ -20,6 +24,11 @@ Pkt ==
   [id |-> 1, fs |-> 32768, opcode |-> 0, rcode |-> 0, opt |-> <<>>,
    qd |-> <<[name |-> Lbl \o <<La>>, qtype |-> 255, qclass |-> 255, unicast |-> FALSE]>>,
    an |-> <<RR(Lbl \o <<La>>, 16, <<<<Long, s, <<107, 61>> \o s>>>>),          \* TXT: strings s, s, "k=" s
+            \* TXT whose text is s cut into two character-strings at every position (a multi-byte character may
+            \* straddle the cut: each piece alone is then not UTF-8 while the text as a whole is)
+            RR(<<La>>, 16, <<<<Pre(Len(s) \div 2), Suf(Len(s) \div 2)>>>>),
+            RR(<<La>>, 16, <<<<<<107, 61>> \o Pre(1), Suf(1)>>>>),
+            RR(<<La>>, 16, <<<<<<107, 61, 97>> \o Pre(Len(s) - 1), Suf(Len(s) - 1) \o <<59, 120>>>>>>),
             RR(<<La>> \o Lbl, 13, <<Long, s>>),                                 \* HINFO
             RR(Lbl, 15, <<<<0, 1>>, Lbl \o Lbl>>),                              \* MX
             RR(<<La>>, 35, <<<<0, 1>>, <<0, 2>>, s, Long, s, Lbl>>),            \* NAPTR
